@@ -256,3 +256,27 @@ def run(run):
     glob = [n for n in ast.walk(mod.tree) if isinstance(n, (ast.Global, ast.Nonlocal))]
     run.check("R4", not glob, "no global statements in comm.server", key="comm.server|global", where=mod.relpath,
               message="comm.server uses global/nonlocal state")
+
+    # ---------------------------------------------------------------- R5
+    run.rule("R5", "Every answer read belongs to the exchange just sent: an exchange that ends without its answer must be treated as a link failure "
+             "(connection closed and re-opened before the next APDU) unless the transport itself discards the late answer. Only ledgerblue's own "
+             "time-out signal (CommException, sw 0x6F00, message 'Timeout', raised by the HID transport, which drops the pending report) is "
+             "answered without a reconnection: is_timeout() accepts exactly that signal (table shared with C11 under the prefix T.), and the "
+             "stream (TCP) transport is used without a socket time-out.")
+    from . import c11
+    run.rid_prefix = "T."
+    try:
+        c11.transport_predicates(run, "R4")
+    finally:
+        run.rid_prefix = ""
+    TCPD = P.cls("ledger.hsm2dongle_tcp.HSM2DongleTCP")
+    st_calls = []
+    for f_ in P.all_functions:
+        if f_.module.name.split(".")[0] in ("ledger", "sgx", "comm", "mgr"):
+            for n_ in A.own_nodes(f_):
+                if isinstance(n_, ast.Call) and isinstance(n_.func, ast.Attribute) and n_.func.attr in ("settimeout", "setdefaulttimeout"):
+                    st_calls.append((f_, n_))
+    run.check("R5", not st_calls, "no socket time-out is configured on the stream transport", key="tcp-dongle|settimeout", where=TCPD.module.relpath,
+              message="a socket time-out is configured (" + "; ".join(f"{f_.qualname}: {norm(n_)[:50]}" for f_, n_ in st_calls) + "): an exchange can then end "
+                      "without its answer while the connection stays open, and the late answer is read by the next exchange (a later client receives the "
+                      "reply computed for an earlier request)")
